@@ -49,3 +49,23 @@ Fixpoint assoc_arity (name : str) (l : list (string * (N * N))) : option (N * N)
   end.
 Theorem arities_are_the_sources : forall name, builtin_arity name = assoc_arity name src_arity.
 Proof. intros name. reflexivity. Qed.
+
+(* error numbers: every code the model raises is the source's number for that error *)
+From BL Require Import Mach.Compile Mach.Runtime.
+Theorem error_codes_are_the_sources :
+  E_Break = src_E_Break /\ E_NextWithoutFor = src_E_NextWithoutFor /\ E_Syntax = src_E_SyntaxError
+  /\ E_ReturnWithoutGosub = src_E_ReturnWithoutGosub /\ E_OutOfData = src_E_OutOfData
+  /\ E_IllegalFunctionCall = src_E_IllegalFunctionCall /\ E_Overflow = src_E_Overflow /\ E_OutOfMemory = src_E_OutOfMemory
+  /\ E_UndefinedLine = src_E_UndefinedLine /\ E_Subscript = src_E_SubscriptOutOfRange /\ E_Redim = src_E_RedimensionedArray
+  /\ E_DivByZero = src_E_DivisionByZero /\ E_IllegalDirect = src_E_IllegalDirect /\ E_TypeMismatch = src_E_TypeMismatch
+  /\ E_StringTooLong = src_E_StringTooLong /\ E_CantContinue = src_E_CantContinue /\ E_UndefinedFn = src_E_UndefinedUserFunction
+  /\ E_Redo = src_E_RedoFromStart /\ E_LineBufferOverflow = src_E_LineBufferOverflow /\ E_WhileWithoutWend = src_E_WhileWithoutWend
+  /\ E_WendWithoutWhile = src_E_WendWithoutWhile /\ E_Internal = src_E_InternalError /\ E_DirectInFile = src_E_DirectStatementInFile.
+Proof. repeat split; reflexivity. Qed.
+
+(* limits: the largest line number (the theorems of C14, C15 and C05 say 65529), the longest line, the pool size, and the
+   head-room below it at which a failed program's stack is dropped *)
+Theorem limits_are_the_sources :
+  src_max_line_number = 65529 /\ MAX_LINE_LEN = src_max_line_len /\ MAX_POOL = src_max_pool
+  /\ forall r, stack_is_full r = (src_max_pool - src_full_headroom <? r_slen r).
+Proof. repeat split; reflexivity. Qed.
